@@ -431,11 +431,15 @@ namespace bluetoe {
 
             static details::attribute_access_result access( attribute_access_arguments& args, std::size_t )
             {
-                static constexpr std::uint8_t value[] = {
-                    handles::service_attribute_handle & 0xff,
-                    handles::service_attribute_handle >> 8,
-                    handles::end_service_handle & 0xff,
-                    handles::end_service_handle >> 8,
+                // service_handles<> counts attributes; the handles are subject to the handle mapping of the server
+                const std::uint16_t first_handle = handle_index_mapping< Server >::handle_by_index( handles::service_attribute_handle - 1 );
+                const std::uint16_t last_handle  = handle_index_mapping< Server >::handle_by_index( handles::end_service_handle - 1 );
+
+                const std::uint8_t value[] = {
+                    static_cast< std::uint8_t >( first_handle & 0xff ),
+                    static_cast< std::uint8_t >( first_handle >> 8 ),
+                    static_cast< std::uint8_t >( last_handle & 0xff ),
+                    static_cast< std::uint8_t >( last_handle >> 8 ),
                     UUID & 0xff,
                     UUID >> 8
                 };
@@ -456,7 +460,7 @@ namespace bluetoe {
         constexpr attribute generate_attribute< include_service< service_uuid16< UUID > >, CCCDIndices, ClientCharacteristicIndex, ServiceUUID, Server, Options... >::attr =
         {
             bits( details::gatt_uuids::include ),
-            &generate_attribute< include_service< service_uuid16< UUID > >, CCCDIndices, ClientCharacteristicIndex, Options... >::access
+            &generate_attribute< include_service< service_uuid16< UUID > >, CCCDIndices, ClientCharacteristicIndex, ServiceUUID, Server, Options... >::access
         };
 
         /*
@@ -484,11 +488,15 @@ namespace bluetoe {
 
             static details::attribute_access_result access( attribute_access_arguments& args, std::size_t )
             {
-                static constexpr std::uint8_t value[] = {
-                    handles::service_attribute_handle & 0xff,
-                    handles::service_attribute_handle >> 8,
-                    handles::end_service_handle & 0xff,
-                    handles::end_service_handle >> 8,
+                // service_handles<> counts attributes; the handles are subject to the handle mapping of the server
+                const std::uint16_t first_handle = handle_index_mapping< Server >::handle_by_index( handles::service_attribute_handle - 1 );
+                const std::uint16_t last_handle  = handle_index_mapping< Server >::handle_by_index( handles::end_service_handle - 1 );
+
+                const std::uint8_t value[] = {
+                    static_cast< std::uint8_t >( first_handle & 0xff ),
+                    static_cast< std::uint8_t >( first_handle >> 8 ),
+                    static_cast< std::uint8_t >( last_handle & 0xff ),
+                    static_cast< std::uint8_t >( last_handle >> 8 )
                 };
 
                 return attribute_value_read_only_access( args, &value[ 0 ], sizeof( value ) );
